@@ -483,24 +483,66 @@ pub fn main(args: &[String]) {
     let props: BTreeSet<String> = arg_val(args, "--props").unwrap_or_default().split(',').filter(|s| !s.is_empty()).map(|s| s.to_string()).collect();
     let threads = arg_u64(args, "--threads", 16) as usize;
     let game_sample = arg_u64(args, "--game-sample", 0) as usize;
-    let recs = read_tlc_records(path);
+    // stream the oracle file: a reader hands out batches of raw lines, workers parse and replay them
+    // (thorough-tier oracles are gigabytes; nothing is held in memory beyond the batches in flight)
+    use std::io::BufRead;
     let total = Mutex::new(Acc::default());
+    let (tx, rx) = std::sync::mpsc::sync_channel::<(usize, Vec<String>)>(threads * 2);
+    let rx = Mutex::new(rx);
     std::thread::scope(|s| {
-        for tid in 0..threads {
-            let recs = &recs;
+        for _tid in 0..threads {
             let props = &props;
             let total = &total;
+            let rx = &rx;
             s.spawn(move || {
                 let mut acc = Acc::default();
                 let mut long = MoveGenerator::new();
-                let mut i = tid;
-                while i < recs.len() {
-                    one_record(&recs[i], props, &mut long, &mut acc, i, game_sample);
-                    i += threads;
+                loop {
+                    let batch = {
+                        let g = rx.lock().unwrap();
+                        g.recv()
+                    };
+                    let (base, lines) = match batch {
+                        Ok(b) => b,
+                        Err(_) => break,
+                    };
+                    for (j, l) in lines.iter().enumerate() {
+                        let rec: Option<Value> = if l.starts_with('"') {
+                            serde_json::from_str::<String>(l).ok().and_then(|inner| serde_json::from_str::<Value>(&inner).ok())
+                        } else if l.starts_with('{') {
+                            serde_json::from_str::<Value>(l).ok()
+                        } else {
+                            None
+                        };
+                        if let Some(rec) = rec {
+                            one_record(&rec, props, &mut long, &mut acc, base + j, game_sample);
+                        }
+                    }
                 }
                 total.lock().unwrap().merge(acc);
             });
         }
+        let f = std::fs::File::open(path).unwrap_or_else(|e| panic!("open {}: {}", path, e));
+        let r = std::io::BufReader::with_capacity(1 << 20, f);
+        let mut batch: Vec<String> = Vec::with_capacity(64);
+        let mut idx = 0usize;
+        let mut base = 0usize;
+        for l in r.lines() {
+            let l = l.unwrap();
+            if !(l.starts_with('"') || l.starts_with('{')) {
+                continue;
+            }
+            batch.push(l);
+            idx += 1;
+            if batch.len() == 64 {
+                tx.send((base, std::mem::replace(&mut batch, Vec::with_capacity(64)))).unwrap();
+                base = idx;
+            }
+        }
+        if !batch.is_empty() {
+            tx.send((base, batch)).unwrap();
+        }
+        drop(tx);
     });
     let t = total.into_inner().unwrap();
     if let Some(bp) = arg_val(args, "--boards-out") {
